@@ -458,7 +458,19 @@ func cmdCfgFmt(args []string) error {
 			emit(rec)
 		}
 	}
-	emit(map[string]interface{}{"k": "corpus", "structured": structured, "pools": len(pools), "pairs": len(pairs), "pairsAcceptedThisShard": accepted})
+	blanks := blankTexts(pools, hosts)
+	blankAccepted := 0
+	for i, src := range blanks {
+		if i%*shards != *shard {
+			continue
+		}
+		if rec, ok := roundTrip(src, "blank"); ok {
+			blankAccepted++
+			emit(rec)
+		}
+	}
+	emit(map[string]interface{}{"k": "corpus", "structured": structured, "pools": len(pools), "pairs": len(pairs), "pairsAcceptedThisShard": accepted,
+		"blanks": len(blanks), "blanksAcceptedThisShard": blankAccepted})
 	made := 0
 	for tries := 0; made < *n && tries < *n*20; tries++ {
 		src := pick(r, corpus)
